@@ -154,6 +154,29 @@ def do_load(how, out, gpath, genome, only_chrom=None, rec=None, tamper=None):
                         and not os.path.exists(os.path.join(gdir, fn)):
                     os.link(os.path.join(cache, fn), os.path.join(gdir, fn))
             cache = gdir
+        if how == "example":
+            # the reader example of the repository, run as a script on the gene annotation given to the pipeline and the directory of results
+            import runpy
+            script = os.path.join(os.environ.get("VERIF_REPO_DIR") or [p_ for p_ in sys.path if os.path.isfile(os.path.join(p_, "process_genome.py"))][0],
+                                  "examples", "general_read_density_data.py")
+            saved = sys.argv
+            sys.argv = [script, gpath, rdir, genome + "_(.*?).h5"]
+            made = []
+            try:
+                g_ = runpy.run_path(script, run_name="__main__")
+                made = list(g_.get("processed_dd_data") or [])
+            except (ValueError, KeyError, IndexError, TypeError) as e:
+                # what the script does AFTER it has built its readers (a column for the order LTR and the window 500) is not the pairing
+                if rec is None or not rec.pairs:
+                    raise
+            finally:
+                sys.argv = saved
+            for dd in made:
+                try:
+                    dd.data_frame.close()
+                except Exception:
+                    pass
+            return []
         if how == "dir":
             return DensityData.from_list_genedata_dir_and_hdf5_dir(cache, rdir, LOG)
         gds = [GeneData.read(os.path.join(cache, fn)) for fn in sorted(os.listdir(cache)) if fn.endswith("GeneData.tsv")]
